@@ -219,7 +219,11 @@ def apalache_retry_core():
 
 def c09(tier, seed):
     t = 'quick' if tier == 'quick' else 'thorough'
-    return dict(stages=[retry_stage('c09_' + t), Stage('retry_liveness', mc=('Retry_c09_quick', 'Retry_c09_live.cfg'))],
+    # the real HTTP backends: what the server sees of ONE send is exactly one POST, also when the connection is dropped after an
+    # earlier success (nothing below the retry loop re-sends on its own)
+    http = Stage('httpclient', mc=('HttpClientMC', 'HttpClient.cfg'), emit=('HttpClientMC', 'HttpClient_emit.cfg'),
+                 driver='httpclient', trace=('HttpClientTrace', 'HttpClientTrace.cfg'), drive_shards=8, selftest=False)
+    return dict(stages=[retry_stage('c09_' + t), Stage('retry_liveness', mc=('Retry_c09_quick', 'Retry_c09_live.cfg')), http],
                 rule='every outcome sequence the environment can produce (TLC explores the transport\'s choices attempt by '
                      'attempt; terminal states = complete fault sequences) for n in 0..%d x codes/exceptions sets (None, '
                      'empty, one, several) x 7 backoff configurations (periodic, exponential, Fibonacci; jitter, caps, default '
